@@ -859,6 +859,13 @@ class Ceremony:
             rest = [kv for kv in m if not (kv[0][:1] == b"\x02" and kv[0][1:] == own_pk)]
             bad = (b"\x02" + own_pk, der(r_, s_))
             pm["inputs"][idx] = ([bad] + rest) if (j + len(rest)) % 2 == 0 else (rest + [bad])
+        elif kind == "declared_type":
+            # own key; the reply DECLARES sighash NONE for the input (PSBT_IN_SIGHASH_TYPE) and carries a signature over the NONE
+            # digest whose own trailing byte says ALL: as a signature of the type it names, it does not verify
+            d = rs.bip143(pm["tx"], idx, algo_sc, inp["amount"], 2) if segwit else rs.legacy(pm["tx"], idx, algo_sc, 2)
+            r_, s_ = secp.ecdsa_sign(own_secret, int.from_bytes(d, "big"))
+            rest = [kv for kv in m if not (kv[0][:1] == b"\x02" and kv[0][1:] == own_pk) and kv[0] != b"\x03"]
+            pm["inputs"][idx] = rest + [(b"\x02" + own_pk, der(r_, s_)), (b"\x03", (2).to_bytes(4, "little"))]
         else:
             return None
         # keep BIP174 ordering irrelevant: the library accepts any order
@@ -1555,7 +1562,7 @@ def generate(ch, tier, prop):
             if "crosstalk" in kinds_f and ch.chance(p * 0.5):
                 st["crosstalk"] = True
             if "byz" in kinds_f and st["src"].startswith("S") and ch.chance(p):
-                st["byz"] = ch.choice(["foreign_key", "wrong_tx"])
+                st["byz"] = ch.choice(["foreign_key", "wrong_tx", "declared_type"])
             out.append(st)
             if "crash" in kinds_f and ch.chance(p):
                 out.append({"op": "crash", "node": ch.choice(["C", st["dst"]])})
@@ -1688,6 +1695,16 @@ def enumerate_plans(tier, prop, seed):
                     plan["steps"] = steps + [{"op": "finalize"}]
                     plan["enum"] = "corrupt-sig-slots"
                     yield plan
+    # a co-signer whose reply declares another sighash type than its signature names: every wallet kind
+    for kind, m, n in (("p2pkh", 1, 1), ("p2wpkh", 1, 1), ("p2sh_p2wpkh", 1, 1), ("p2sh", 2, 2), ("p2wsh", 2, 2), ("p2sh_p2wsh", 2, 2)):
+        plan = base(kind, m, n)
+        plan["creator"] = {"segwit_flag": False, "xpubs": False, "unknown": False, "helper": False}
+        plan["sign_method"] = "keys"
+        plan["encoding"] = "raw"
+        plan["topology"] = "star"
+        plan["steps"] = [{"op": "send", "src": "C", "dst": f"S{j}"} for j in range(n)] + [{"op": "send", "src": "S0", "dst": "C", "byz": "declared_type"}] + [{"op": "send", "src": f"S{j}", "dst": "C"} for j in range(1, n)] + [{"op": "finalize"}]
+        plan["enum"] = "declared-sighash-type"
+        yield plan
     # replies without UTXO records whose partial signature was corrupted: every wallet kind
     for kind, m, n in (("p2pkh", 1, 1), ("p2wpkh", 1, 1), ("p2sh_p2wpkh", 1, 1), ("p2sh", 2, 2), ("p2wsh", 2, 2), ("p2sh_p2wsh", 2, 2)):
         plan = base(kind, m, n)
